@@ -40,3 +40,13 @@ CLAIMED["C04"] = (
  "armed spec is one-shot, and the cancelled-flag protocol of ScheduleRepeating. Does not decide wall-clock clauses (delay elapsed, spacing) nor that the timer fires.",
  COMMON_NOTE,
  "DESIGN.md section 5 C04")
+
+CLAIMED["C14"] = (
+ "path-sensitive bracket (counter pairing) analysis + guard literals + interprocedural provenance (rawness) propagation of callback values over resolved calls",
+ "Static necessary-condition analysis over the five descriptor owners. Decides that every update of IO.Dispatched is a balanced +1/callback/-1 bracket on "
+ "every path, that each bracket is reached only under Dispatched < MaxCallbackDispatch (same field, same constant, strict), and that no raw API-entry "
+ "callback is invoked synchronously outside a bracket unless on the poller's dispatch stack. The 17 error-completion call sites of schedule*/asyncAccept "
+ "violate the last clause on the pinned tree (D23) and are listed as known findings by construct key; any other call site is reported. "
+ "Does not decide that deferral preserves the result on every descriptor kind (kernel) nor panicking callbacks.",
+ COMMON_NOTE,
+ "DESIGN.md section 5 C14")
